@@ -16,9 +16,9 @@ func init() {
 
 // documented "set once before use" hooks and registration entry points (key: function|global)
 var globalWriteTable = map[string]string{
-	"parser.SetDebug|yyDebug":        "documented debugging hook of the parser, meant to be set before any parse",
-	"repl/cli.RunREPL|InputHook":     "the command-line REPL installs py.InputHook (documented 'set before use' hook) for the single interactive session of the process",
-	"repl/cli.RunREPL$2|InputHook":   "restores the hook when the command-line REPL ends",
+	"parser.SetDebug|yyDebug":      "documented debugging hook of the parser, meant to be set before any parse",
+	"repl/cli.RunREPL|InputHook":   "the command-line REPL installs py.InputHook (documented 'set before use' hook) for the single interactive session of the process",
+	"repl/cli.RunREPL$2|InputHook": "restores the hook when the command-line REPL ends",
 }
 
 func runC08R1(c *Ctx, r *Rep) {
